@@ -35,7 +35,9 @@ def stray_for(cfg, req, i, size=0):
         pdu = rb.build_pdu(rb.PDU_RESPONSE, req.request_id, 0, 0, [(SYS, rb.enc_int(1000 + i))])
         return rb.build_community_msg(1 - req.version, req.community, pdu)
     val = rb.enc_octets(b"S" * size) if size else rb.enc_int(1000 + i)
-    return drivers.reply_for(cfg, req, [(SYS, val)], request_id=(req.request_id + 1 + i) & 0x7FFFFFFF)
+    # non-matching request-ids: neighbours of the outstanding id, and (every third stray) the same low 32 bits with higher bits set
+    rid = (req.request_id + 1 + i) & 0x7FFFFFFF if i % 3 != 1 else req.request_id + ((i + 1) << 32)
+    return drivers.reply_for(cfg, req, [(SYS, val)], request_id=rid)
 
 
 def reply_for(cfg, req):
